@@ -6,6 +6,8 @@ prop=$(python3 -c "import json;print(json.load(open('$d/meta.json'))['property']
 git -C /repo apply "$d/patch.diff" || exit 8
 out=$(cd /verif && timeout 3000 python3 bin/check "$prop" --tier quick 2>&1 | grep -E "VIOLATION|violation|OK \(" | cut -c1-300 | head -8)
 git -C /repo checkout -- . && ( cd /verif/harness && CARGO_TARGET_DIR=/verif/harness/target CARGO_NET_OFFLINE=true cargo build --offline >/dev/null 2>&1 )
+# the run above rewrote the evidence file from a modified tree: put the committed one back
+git -C /verif checkout -- evidence/$prop.json 2>/dev/null; rm -f /verif/evidence/replays/$prop-*.json
 ( cd /verif && python3 -c "
 import sys; sys.path.insert(0,'bin')
 from lib import translate; translate.regenerate()" ) >/dev/null 2>&1
